@@ -5,7 +5,9 @@
    Not proved here: the compression layer's writer and the fail-safe decompressor over a
    throttled source (oracle only); repair over a throttled source (oracle only; its reads go
    through the combinators proved below). *)
+From MLA Require Import Limit.
 From MLA Require Import Base Stream Blocks Writer Reader Sink SinkProofs FlushProofs ThrottledProofs Inst.
+From MLAGen Require Src.
 Open Scope N_scope.
 
 (* write_all into a destination that accepts any part (>= 1 byte) of each write and reports
@@ -39,7 +41,7 @@ Proof. exact write_all_zero. Qed.
 
 (* the archive writer's block stream through any such sink = the block stream in memory,
    however the increments are cut into write_all calls *)
-Theorem C13_archive_sink_indep :
+Theorem C13_archive_sink_indep {LIM : Limit} :
   forall FNMAX TS TC TA TE H order split fuel ops sched,
     (forall b, concat (split b) = b) -> good_sched sched ->
     let final := fst (wrun FNMAX TS TC TA TE H order w_init ops) in
@@ -118,11 +120,11 @@ Proof. vm_compute. split; reflexivity. Qed.
    interrupting sink, increments cut in two: same bytes as in memory *)
 Example C13_example_archive :
   let ops := [OStart [97]; OStart [98]; OAppend 0 3 [1; 2; 3]; OAppend 1 2 [7; 8]; OEnd 0; OFlush; OEnd 1; OFinalize] in
-  let step := wrun 48 0 1 254 255 (fun b => [len b]) (fun f => f) w_init in
+  let step := wrun (LIM := MLAGen.Src.BINCODE_MAX_DESERIALIZE_prod) 48 0 1 254 255 (fun b => [len b]) (fun f => f) w_init in
   let split := fun b : bytes => [takeN 5 b; dropN 5 b] in
   let sched := flat_map (fun _ => [Accept 1; Interrupt]) (seq 0 40) ++ [Accept 7] in
   good_sched sched /\ w_final (fst (step ops)) = true /\ 100 < len (w_out (fst (step ops))) /\
-  exists k', push_outs split 600 (mkSink [] sched) [] (wouts 48 0 1 254 255 (fun b => [len b]) (fun f => f) w_init ops) = (k', WAOk) /\
+  exists k', push_outs split 600 (mkSink [] sched) [] (wouts (LIM := MLAGen.Src.BINCODE_MAX_DESERIALIZE_prod) 48 0 1 254 255 (fun b => [len b]) (fun f => f) w_init ops) = (k', WAOk) /\
              sk_data k' = w_out (fst (step ops)).
 Proof. vm_compute. repeat split; try reflexivity. eexists. split; reflexivity. Qed.
 
@@ -433,7 +435,7 @@ Theorem C13_archive_open_any_source :
          (privs : list bytes) (s : bytes),
     let blocks := w_out sf in
     let nb := nblocks BLOCK (len blocks) in
-    wrun FNMAX TS TC TA TE H order w_init (ops ++ [OFinalize]) = (sf, rs) ->
+    wrun (LIM := LIMIT) FNMAX TS TC TA TE H order w_init (ops ++ [OFinalize]) = (sf, rs) ->
     Forall (fun r => is_ok r = true) rs -> forallb op_utf8 ops = true ->
     len blocks < 2 ^ 64 -> len (ser_footer_map (order (w_footer sf))) < 2 ^ 32 ->
     (wc_compress cfg = true ->
